@@ -367,6 +367,13 @@ def run(ctx):
                         ctx.guarded(check_case, dict(base, out={'k': 'resp', 'cls': cls, 'status': stt, 'body': {'k': 'str', 'v': 'b'}, 'how': how, 'headers': [], 'shared': False},
                                                      method=method, resp_status=None))
         ctx.count('string_status_grid')
+        # every exception class of the pool raised by the handler (and by a before_request hook is covered by the generator): a 500, whatever the class
+        for exc in P.EXC_TYPES:
+            for method in ('GET', 'HEAD'):
+                ctx.guarded(check_case, dict(base, out={'k': 'exc', 'exc': exc}, method=method, resp_status=None))
+                ctx.guarded(check_case, dict(base, out={'k': 'resp', 'cls': 'HTTPResponse', 'status': 201, 'body': {'k': 'str', 'v': 'x'}, 'how': 'return', 'headers': [], 'shared': False},
+                                             method=method, resp_status=None, handlers={'500': 'str'}, before=['ok']))
+        ctx.count('exception_class_grid')
         # a handler iterable / file whose close() fails, for responses that keep and that lose their body
         for out in (dict(items, k='iterobj', has_close=True, raise_at=None, close_raises=True),
                     {'k': 'file', 'data': 'file content', 'has_close': True, 'has_iter': True, 'close_raises': True},
